@@ -2039,6 +2039,7 @@ impl StorageEngine {
                     None => { shard_guard.expiring_keys.remove(&new_key); }
                 }
                 shard_guard.data.insert(new_key.clone(), stored_value);
+                shard_guard.mark_modified(old_key);
                 shard_guard.mark_modified(&new_key);
                 Ok(())
             } else {
@@ -2070,6 +2071,7 @@ impl StorageEngine {
                     None => { new_guard.expiring_keys.remove(&new_key); }
                 }
                 new_guard.data.insert(new_key.clone(), stored_value);
+                old_guard.mark_modified(old_key);
                 new_guard.mark_modified(&new_key);
                 Ok(())
             } else {
